@@ -350,6 +350,13 @@ def run_site(site, repo, reg=None, uni=None):
         if "__target" not in sl.sources:
             obls.append(ground_obligation(oid, False, "the name read does not depend on a relationship target / href", rel, kind="resolution", definite=False))
             continue
+        # the slice equates a value read from a local lookup table with the expression stored into it: valid only if the table
+        # cannot hold entries of other source parts (relationship ids are scoped by the part that owns the .rels)
+        for (mname, rnode, snode) in sl.map_flows:
+            ok, why = F.table_scope(fn, F.parent_map(fn), mname, rnode, snode)
+            g = ground_obligation(f"{oid}.lookup-table-scope", bool(ok), why, rel, kind="resolution", definite=False)
+            g["function"] = f"{rel}::{fname}"
+            obls.append(g)
         makers = site.get("makers", {})
         params = []
         for a in f.args.args:
